@@ -668,7 +668,7 @@ impl<K: KeyT, const N: usize> SetSys<K, N> {
 
     pub fn build(&self, path: &[u32], cx: &mut Ctx) -> SBuilt<K, N> {
         pl::reset();
-        let mut bx = Canary::boxed(Set::<K, N>::new());
+        let mut bx = Canary::boxed(if crate::mapsys::CTOR.load(std::sync::atomic::Ordering::Relaxed) == 0 { Set::<K, N>::new() } else { Set::<K, N>::default() });
         let mut model = RefSet::new(N);
         let probes = self.probes();
         let mut leaked = Vec::new();
